@@ -384,6 +384,57 @@ Fixpoint sg_horner (K : nat) (r : prog) : prog :=
 Definition t_subgraph_trunc (K : nat) : prog :=
   LetM 1 (IEq i_ j_) (sg_horner K (OutV (Mx 1 i_ i_))).
 
+
+(* --- further measures --- *)
+(* weighted directed clustering / transitivity (cbrt = primitive 1) *)
+Definition wd_prelude (r : prog) : prog :=
+  LetM 1 (cbrtW i_ j_ +' cbrtW j_ i_)
+  (LetV 1 (Sum k_ (Nz (A_ i_ k_) +' Nz (A_ k_ i_)))
+  (LetV 2 (Sum2 k_ l_ (S_ i_ k_ *' S_ k_ l_ *' S_ l_ i_) /' c2)
+  (LetV 3 (Sum k_ (Nz (A_ i_ k_) *' Nz (A_ k_ i_))) r))).
+Definition t_clustering_coef_wd : prog :=
+  wd_prelude (OutV (If (Vc 2 i_) (Vc 2 i_ /' (Vc 1 i_ *' (Vc 1 i_ -' c1) -' c2 *' Vc 3 i_)) c0)).
+Definition t_transitivity_wd : prog :=
+  wd_prelude (OutS (Sum i_ (Vc 2 i_) /' Sum i_ (Vc 1 i_ *' (Vc 1 i_ -' c1) -' c2 *' Vc 3 i_))).
+(* efficiency_wei (global): lengths 1/w *)
+Definition t_efficiency_wei : prog :=
+  dist_prog (c1 /' A_ i_ j_) (c1 /' A_ k_ j_)
+    (OutS (Sum2 i_ j_ (If (Pos (D_ i_ j_)) (c1 /' D_ i_ j_) c0) /' (Nn *' Nn -' Nn))).
+(* kcoreness_centrality_bu / _bd: coreness = number of k in 1..K whose k-core still contains the node
+   (cores are nested); K = N-1 is supplied by the caller: a FAMILY of programs, one per K *)
+Fixpoint kcoreness_acc (und : bool) (K : nat) (r : prog) : prog :=
+  match K with
+  | O => r
+  | S K' =>
+    IterV CNodes 1 c1
+      (If (And (Op Lt (kc_deg und) (Cst (inject_Z (Z.of_nat K)))) (Pos (kc_deg und))) c0 (alive i_))
+      (LetV 2 (Vc 2 i_ +' Pos (kc_deg und)) (kcoreness_acc und K' r))
+  end.
+Definition t_kcoreness (und : bool) (K : nat) : prog := LetV 2 c0 (kcoreness_acc und K (OutV (Vc 2 i_))).
+(* betweenness_bin: number of shortest paths sigma by distance layers, then the pair-dependency sum *)
+Definition Sg_ (x y : nat) : tm := Mx 2 x y.
+Definition t_betweenness_bin : prog :=
+  dist_prog c1 c1
+  (IterM CNodes 2 (IEq i_ j_)
+     (If (IEq i_ j_) c1
+         (Sum k_ (Op Le c0 (D_ i_ k_) *' B_ k_ j_ *' Op Eqq (D_ i_ k_ +' c1) (D_ i_ j_) *' Sg_ i_ k_)))
+  (OutV (Sum2 k_ l_ (Neq k_ i_ *' Neq l_ i_ *' Neq k_ l_ *' Pos (D_ k_ l_) *' Op Le c0 (D_ k_ i_) *' Op Le c0 (D_ i_ l_)
+                      *' Op Eqq (D_ k_ i_ +' D_ i_ l_) (D_ k_ l_) *' Sg_ k_ i_ *' Sg_ i_ l_ /' Sg_ k_ l_)))).
+
+
+(* charpath(distance_bin(A), include_infinite=False): eccentricity = max finite off-diagonal distance of the row,
+   radius / diameter = min / max eccentricity *)
+(* a row with no finite off-diagonal entry is fully masked: np.array(masked.max()) yields the fill value 1e20 *)
+Definition ecc_tm : tm := Big BMax k_ (And (Neq i_ k_) (Op Le c0 (D_ i_ k_))) (D_ i_ k_) (Cst (inject_Z (10 ^ 20))).
+Definition t_charpath_ecc : prog := dist_prog c1 c1 (OutV ecc_tm).
+Definition t_charpath_radius : prog := dist_prog c1 c1 (LetV 1 ecc_tm (OutS (Big BMin k_ c1 (Vc 1 k_) c0))).
+Definition t_charpath_diameter : prog := dist_prog c1 c1 (LetV 1 ecc_tm (OutS (Big BMax k_ c1 (Vc 1 k_) c0))).
+(* findwalks: Wq[:,:,q] = (binarized A)^q, q >= 1 *)
+Definition t_walks (q : nat) : prog :=
+  IterM (CConst (pred q)) 1 (B_ i_ j_) (Sum k_ (G_ i_ k_ *' B_ k_ j_)) (OutM (G_ i_ j_)).
+(* jdegree: J[a,b] = number of nodes with in-degree a and out-degree b; a, b = scalars 0, 1 *)
+Definition t_jdegree_cell : prog := OutS (Sum i_ (Op Eqq dg_in (Sc 0) *' Op Eqq dg_out (Sc 1))).
+
 (* dispatch table for the driver: measure id, small natural parameter *)
 Definition measure_by_id (id k : nat) : prog :=
   (match id with
@@ -405,6 +456,9 @@ Definition measure_by_id (id k : nat) : prog :=
   | 36 => t_rich_club_bu | 37 => t_rich_club_bd
   | 38 => t_assortativity_bin k | 39 => t_assortativity_wei k
   | 40 => t_pagerank_residual | 41 => t_eigen_residual | 42 => t_subgraph_trunc k
+  | 43 => t_kcoreness true k | 44 => t_kcoreness false k
+  | 45 => t_clustering_coef_wd | 46 => t_transitivity_wd | 47 => t_efficiency_wei | 48 => t_betweenness_bin
+  | 49 => t_charpath_ecc | 50 => t_charpath_radius | 51 => t_charpath_diameter | 52 => t_walks k | 53 => t_jdegree_cell
   | _ => OutS c0
   end)%nat.
 Definition run_measure (prims : nat -> Q -> Q) (id k : nat) (A : list (list Q)) (ci ks : list Q) : list (list Q) :=
